@@ -1042,6 +1042,12 @@ func c05r7(rc *core.RC) {
 						if x.Tok == token.INC && strings.Contains(strings.ToLower(core.Src(p.Fset, x.X)), "cursor") {
 							found = true
 						}
+					case *ast.AssignStmt:
+						if x.Tok == token.ADD_ASSIGN && len(x.Lhs) == 1 && strings.Contains(strings.ToLower(core.Src(p.Fset, x.Lhs[0])), "cursor") {
+							if v, isC := core.ConstInt(info, x.Rhs[0]); isC && v >= 1 {
+								found = true
+							}
+						}
 					}
 					return true
 				})
